@@ -3,6 +3,7 @@ package props
 import (
 	"fmt"
 	"strings"
+	"time"
 
 	"verifharness/internal/core"
 )
@@ -30,6 +31,10 @@ func runC07(r *core.Run) {
 	mc := r.MustHold(core.TLCOpts{Module: "RelMC", Cfg: "RelMC_order.cfg", Workers: 8})
 	r.Coverage["states"] = mc.Distinct
 	r.Coverage["transitions"] = mc.Generated
+	// the acceptance predicates themselves: satisfiable, sensitive and functional over all small inputs (RelJudge.tla)
+	mj := r.MustHold(core.TLCOpts{Module: "RelJudge", Cfg: "RelJudge_window.cfg", Workers: 8, Timeout: 20 * time.Minute})
+	r.Coverage["states"] = mc.Distinct + mj.Distinct
+	r.Coverage["transitions"] = mc.Generated + mj.Generated
 	ncase := 260
 	if r.Thorough {
 		ncase = 3000
